@@ -32,6 +32,20 @@ enum {
 void c18_check_parts(const char *pfx, const double *v, size_t n, const double *range,
                      const struct c18_part *p, size_t np, const size_t *window, int flags);
 
+/*
+ * Several limited dimensions applied in turn to one list of parts
+ * (linepart::array::apply, polyline::set): v[d][0..n) against range[d] = {min, max}.
+ * A point is visible when it is in range in every dimension.  Per dimension the
+ * rules of the property hold for the drawn portions (interior points in range,
+ * first/last point out of range only next to an in-range neighbour); the line
+ * enters the visible box at the largest entering fraction of the dimensions
+ * whose first point is outside (leaves it at the largest leaving fraction,
+ * measured from the last point), which is what _cut / _trim have to reproduce
+ * within the 16 bit precision.  Key prefix model:<pfx>:
+ */
+void c18_check_parts_nd(const char *pfx, const double * const *v, int dims, size_t n, const double (*range)[2],
+                        const struct c18_part *p, size_t np);
+
 /* true when any value or bound is NaN/inf, or the spread of values and bounds overflows double */
 int c18_nonfinite(const double *v, size_t n, const double *range);
 
